@@ -44,7 +44,8 @@ def run_shard(spec):
         length = rng.choice([4, 8, 12, 20, 40, 60])
         with_listeners = prop == "C06" or i % 4 == 0
         steps = CH.gen_history(rng, length, voc, listeners=with_listeners)
-        h.run(steps, n_listeners=rng.choice([0, 1, 1, 2, 4]) if with_listeners else 1)
+        h.run(steps, n_listeners=rng.choice([0, 1, 1, 2, 4]) if with_listeners else 1, loop_mode=(i % 3 == 2))
+        res.cls("mode", "loop" if i % 3 == 2 else "direct")
     if spec["exh"]:
         rs = reduced_steps()
         depth = 3
@@ -60,5 +61,5 @@ def run_shard(spec):
 
 def replay(prop, blob):
     res = Result()
-    CH.Harness(res, [prop]).run(CH.history_from_json(blob["history"]), n_listeners=blob.get("n_listeners", 1))
+    CH.Harness(res, [prop]).run(CH.history_from_json(blob["history"]), n_listeners=blob.get("n_listeners", 1), loop_mode=blob.get("loop_mode", False))
     return res
